@@ -100,6 +100,21 @@ def directed() -> list[dict[str, Any]]:
                 {'kind': 'create', 'id': 'c1'},
             ] + [{'kind': 'delete', 'id': f'd{k + 1}', 'script': [['slow', dur, ['ok']]]} for k in range(n_del)],
                 timeline=[[0, 'start', 'op1'], [1, 'create', 'a', {'spec': {'x': 1}}], [6, 'delete', 'a'], [round(6 + dur / 2, 3), 'edit', 'a', {'status': {'foreign': 1}}]]))
+    # D7: the open resume cycle is superseded by an update that leaves a record of the old purpose behind (a resume handler that is filtered out for the
+    # new state, or the finished update handler when the edit is reverted): the handlers that go on keep their records -- a finished one stays finished
+    for gap in (0.4, 1.5):
+        for variant in ('revert', 'unlabel', 'delete'):
+            hs = [{'kind': 'create', 'id': 'c1'}, {'kind': 'update', 'id': 'u1'}, {'kind': 'resume', 'id': 'r1', 'opts': {'deleted': True}},
+                  {'kind': 'resume', 'id': 'r2', 'script': [['temp', 6.0], ['ok']]},
+                  {'kind': 'resume', 'id': 'r3', 'script': [['temp', 6.0], ['ok']], 'opts': {'labels': {'l': 'a'}}}, {'kind': 'delete', 'id': 'd1'}]
+            tl = [[0, 'start', 'op1'], [1, 'create', 'a', {'spec': {'x': 0}, 'metadata': {'labels': {'l': 'a'}}}], [3, 'stop_wait', 'op1'], [4, 'start', 'op2']]
+            if variant == 'revert':
+                tl += [[5.0, 'edit', 'a', {'spec': {'x': 1}}], [round(5.0 + gap, 3), 'edit', 'a', {'spec': {'x': 0}}]]
+            elif variant == 'unlabel':
+                tl += [[round(5.0 + gap, 3), 'edit', 'a', {'metadata': {'labels': {'l': 'b'}}}]]
+            else:
+                tl += [[round(5.0 + gap, 3), 'delete', 'a']]
+            out.append(dict(base, name=f'D7-supersede-{variant}-{gap}', handlers=hs, timeline=tl))
     return out
 
 
